@@ -402,7 +402,7 @@ def lfn_slots(long, name11):
 
 def build(ft, bps=512, spc=1, nf=2, rsvd=None, rootent=None, clusters=100, fatsec=None, files=(), root_extra=None,
           fatfill=None, hi_bits=None, bootcode=None, oem=b"FOREIGN ", label=None, backup=True, dirty=False,
-          fat1_bits=None, media=0xF8, extra_sectors=0):
+          fat1_bits=None, media=0xF8, extra_sectors=0, backup_bootcode=None):
     """Independent formatter.  files: list of dicts(path components are built by the caller):
        (long|None, name11, attr, chain, data|slots) for the ROOT directory; sub-directories are given
        as entries with attr 0x10 whose `data` is the raw directory content.
@@ -432,6 +432,9 @@ def build(ft, bps=512, spc=1, nf=2, rsvd=None, rootent=None, clusters=100, fatse
         img[bps:bps + 512] = fsi
         if backup:
             img[6 * bps:6 * bps + 512] = img[0:512]
+            if backup_bootcode:
+                # a backup whose boot code differs from the primary's (an older copy): outside the BPB, so nothing may touch it
+                img[6 * bps + len(h):6 * bps + len(h) + len(backup_bootcode)] = backup_bootcode[:510 - len(h)]
             img[7 * bps:7 * bps + 512] = fsi
     nent = fatsec * bps * 8 // ft
     fat = [0] * nent
